@@ -3,6 +3,7 @@ package checkers
 import (
 	"go/ast"
 	"go/constant"
+	"math"
 	"sort"
 	"strconv"
 	"unicode"
@@ -64,6 +65,9 @@ func (c *badRegexpChecker) VisitExpr(x ast.Expr) {
 }
 
 func (c *badRegexpChecker) checkPattern(pat string) {
+	if len(pat) >= math.MaxUint16 {
+		return // The parser keeps positions in uint16
+	}
 	re, err := c.parser.Parse(pat)
 	if err != nil {
 		return
